@@ -368,6 +368,8 @@ class Sym:
             c = n.get("callee")
             if c and c.get("dk", "").startswith("Ctor"):
                 return ("ctor", c.get("ctor_of") or c["path"], tuple(s(x) for x in n["args"]))
+            if not c and strip(n["f"]).get("to", {}).get("res") == "selfctor" and n.get("ty"):
+                return ("ctor", n["ty"], tuple(s(x) for x in n["args"]))      # `Self(a, b)` inside an impl
             return ("call", callee_of(n) or ("?", s(n["f"])), tuple(s(x) for x in n["args"]))
         if k == "Binary":
             return ("bin", n["op"], s(n["l"]), s(n["r"]))
@@ -855,7 +857,14 @@ class Exec(Sym):
         return self.value(self.fn_hir["body"], 0)
 
     def block(self, b, d):
-        for st in b.get("stmts") or ():
+        sts = list(b.get("stmts") or ())
+        for i, st in enumerate(sts):
+            s0 = strip(st)
+            # `assert!(c)` / `if bad { panic!() }`: what follows is the value only when the panic branch is not taken
+            if s0.get("k") == "If" and s0.get("else") is None and diverges(s0["then"]) and _panics(s0["then"]):
+                c = self.sym(s0["cond"], d)
+                rest = dict(b, stmts=sts[i + 1:])
+                return ("if", c, ("panic",), self.block(rest, d))
             self.stmt(st, d)
         if b.get("expr") is not None:
             return self.value(b["expr"], d)
@@ -1112,6 +1121,17 @@ class Exec(Sym):
         elif k == "POr" and pat.get("pats"):
             # all alternatives bind the same names; bind through the first one
             self.bind_pat_fields(pat["pats"][0], sc)
+
+
+def _panics(b):
+    """does this diverging block end in a panic (rather than return / break / continue)?"""
+    for n, _ in walk(b):
+        if n.get("k") in ("Ret", "Break", "Continue"):
+            return False
+    for n, _ in walk(b):
+        if n.get("k") == "Call" and (callee_of(n) or "").startswith(("core::panicking", "std::rt::begin_panic", "std::rt::panic")):
+            return True
+    return False
 
 
 def str_append(cur, part):
@@ -1429,6 +1449,11 @@ def fold(t, assume, discr=None, helpers=None, evalcalls=None):
                 return ("lit", CHAR_FNS[ck](args[0][1]))
             if ck in BOOL_CHAR_FNS and args and args[0][0] == "lit" and isinstance(args[0][1], str):
                 return ("lit", BOOL_CHAR_FNS[ck](args[0][1]))
+            if ck.endswith("::contains") and len(args) == 2 and args[0][0] == "struct" and str(args[0][1]).endswith(("ops::Range", "ops::RangeInclusive")):
+                d_ = dict(args[0][2])
+                lo_, hi_, x_ = sym_int(d_.get("start")), sym_int(d_.get("end")), sym_int(args[1])
+                if None not in (lo_, hi_, x_):
+                    return ("lit", lo_ <= x_ < hi_ if str(args[0][1]).endswith("ops::Range") else lo_ <= x_ <= hi_)
             if ck.endswith("::abs") and len(args) == 1 and args[0][0] == "lit" and isinstance(args[0][1], int) and not isinstance(args[0][1], bool):
                 return ("lit", abs(args[0][1]))
             if ck.endswith("::to_string") and len(args) == 1 and args[0][0] == "lit" and not isinstance(args[0][1], bool):
